@@ -13,6 +13,8 @@ Inductive op :=
 | OReload
 | OQuery
 | OSetFail (codes : list Z)            (* from now on the function raises on these settings *)
+| OGrowObserved (id : Z)               (* grow(id) while ANOTHER Crop object queries progress at the moment the
+                                          result is written but not yet published *)
 | OGrowWriteFails (ids : list Z)       (* Crop.grow(ids) while writing the result file fails (full disk, quota) *)
 | OReap (allow : bool) (clean_up : option bool).
 
@@ -88,6 +90,14 @@ Definition step (s : st) (o : op) : st * val :=
   | OReload => ok (mk_st (reload d) d (s_fail s) (s_kind s)) []
   | OQuery => ok (mk_st (sync ob d) d (s_fail s) (s_kind s)) []
   | OSetFail codes => ok (mk_st ob d codes (s_kind s)) []
+  | OGrowObserved i =>
+      match grow (fn_of s) d i with
+      | Ok d' =>
+          let s' := mk_st (sync ob d') d' (s_fail s) (s_kind s) in
+          (* the observer sees the state BEFORE the grow: the batch is not finished until it is published *)
+          (s', VL (VZ 0 :: enc_queries (s_obj s') d' ++ [VL (enc_queries (reload d) d)]))
+      | Err _ => (mk_st (sync ob d) d (s_fail s) (s_kind s), VL (VZ 1 :: enc_queries (sync ob d) d))
+      end
   | OGrowWriteFails _ =>
       (* the first batch's result cannot be written: grow raises, nothing is published *)
       (mk_st (sync ob d) d (s_fail s) (s_kind s), VL (VZ 1 :: enc_queries (sync ob d) d))
